@@ -130,26 +130,26 @@ def w_ortho_trunc(ctx, rng, idx):
     thr = float(10 ** rng.uniform(-8, np.log10(0.5)))
     ctx.describe({'op': 'ortho(max_rank/threshold)', 'rows': rows, 'cols': cols, 'kind': kind, 'max_rank': mr, 'max_ranks': mrl, 'threshold': thr})
     t = fresh()
-    call('TT.ortho', lambda: t.ortho(max_rank=mr), prop=P)
+    call('TT.ortho', t.ortho, prop=P, max_rank=mr)
     t = fresh()
-    call('TT.ortho', lambda: t.ortho(max_rank=mrl), prop=P)
+    call('TT.ortho', t.ortho, prop=P, max_rank=mrl)
     t = fresh()
-    call('TT.ortho', lambda: t.ortho(threshold=thr), prop=P)
+    call('TT.ortho', t.ortho, prop=P, threshold=thr)
     call('TT.__init__', lambda: tt.TT(gen.clone_cores(cores), max_rank=mr), prop=P)
     call('TT.__init__', lambda: tt.TT(gen.clone_cores(cores), max_rank=mrl), prop=P)
     call('TT.__init__', lambda: tt.TT(gen.clone_cores(cores), threshold=thr), prop=P)
     # one-sided truncating sweeps after the opposite side was orthonormalised (precondition measured by the contract)
     t = fresh()
     call('TT.ortho_left', t.ortho_left, prop=P)
-    call('TT.ortho_right', lambda: t.ortho_right(max_rank=mr), prop=P)
+    call('TT.ortho_right', t.ortho_right, prop=P, max_rank=mr)
     t = fresh()
     call('TT.ortho_right', t.ortho_right, prop=P)
-    call('TT.ortho_left', lambda: t.ortho_left(max_rank=mrl), prop=P)
+    call('TT.ortho_left', t.ortho_left, prop=P, max_rank=mrl)
     # and without the precondition: only the rank bound is asserted
     t = fresh()
-    call('TT.ortho_right', lambda: t.ortho_right(max_rank=mrl), prop=P)
+    call('TT.ortho_right', t.ortho_right, prop=P, max_rank=mrl)
     t = fresh()
-    call('TT.ortho_left', lambda: t.ortho_left(max_rank=mr, threshold=thr), prop=P)
+    call('TT.ortho_left', t.ortho_left, prop=P, max_rank=mr, threshold=thr)
 
 
 def w_failpoint(ctx, rng, idx):
@@ -216,11 +216,11 @@ def w_large_rank(ctx, rng, idx):
     ctx.describe({'op': 'ortho(max_rank) on a large bond', 'rank': r, 'dims': [m, n], 'cap': cap, 'spectrum': ['nearly_flat', 'slow_decay', 'flat'][k], 'order': 3 if order3 else 2, 'complex': cplx})
     with probe.oracle():
         t = tt.TT([c.copy() for c in cores])
-    call('TT.ortho', lambda: t.ortho(max_rank=caps), prop=P, tags=['large_rank'])
+    call('TT.ortho', t.ortho, prop=P, tags=['large_rank'], max_rank=caps)
     with probe.oracle():
         t2 = tt.TT([c.copy() for c in cores])
     call('TT.ortho_left', t2.ortho_left, prop=P, tags=['large_rank'])
-    call('TT.ortho_right', lambda: t2.ortho_right(max_rank=caps), prop=P, tags=['large_rank'])
+    call('TT.ortho_right', t2.ortho_right, prop=P, tags=['large_rank'], max_rank=caps)
 
 
 WORKLOADS = [
